@@ -75,10 +75,21 @@ def gen_inputs(tier, rng):
             inputs.append((('Paragraph', 'Span', 'Header')[k % 3], [s])); k += 1
             inputs.append((('Paragraph', 'Span', 'Header')[k % 3], [s[:cut], s[cut:]])); k += 1
     exhaustive_part = len(inputs)
-    syms = 'aé<&"Z 中 \t\n    '
+    # random stream: XML-special, non-ASCII, NBSP, CJK, and one character of each Unicode class a codec could mistreat:
+    # outside the BMP (U+1F600, U+1D11E, U+20000, U+10FFFF), the BMP edges around the surrogates (U+D7FF, U+E000, U+FFFD),
+    # combining mark, zero-width joiner, RTL mark, other blanks (U+2003, U+3000, U+2028, U+0085), soft hyphen
+    rare = ['\U0001F600', '\U0001D11E', '\U00020000', '\U0010FFFF', '\uD7FF', '\uE000', '\uFFFD', '\u0301', '\u200D',
+            '\u200F', '\u2003', '\u3000', '\u2028', '\u0085', '\u00AD']
+    syms = list('a\u00e9<&"Z\u00a0\u4e2d \t\n    ') + rare[:(4 if tier == "quick" else len(rare))] * 1
+    rng.shuffle(rare)
+    # every rare character at least once, alone / leading / inner / trailing, whole and split around it
+    for ch in rare:
+        for s0 in (ch, ch + 'a', 'a' + ch + 'b', 'a ' + ch, ch + ' ' + ch, ' ' + ch + '\t'):
+            inputs.append((('Paragraph', 'Span', 'Header')[k % 3], [s0])); k += 1
+            inputs.append((('Paragraph', 'Span', 'Header')[k % 3], [s0[:1], s0[1:]])); k += 1
     for _ in range(1500 if tier == "quick" else 60000):
         n = rng.randint(0, 12 if tier == "quick" else 40)
-        s = ''.join(rng.choice(syms) for _ in range(n))
+        s = ''.join(rng.choice(syms + rare) for _ in range(n))
         k = rng.randint(0, 3); cuts = sorted(rng.randint(0, n) for _ in range(k))
         inputs.append((rng.choice(['Paragraph', 'Span', 'Header']), [s[i:j] for i, j in zip([0] + cuts, cuts + [n])],
                        rng.choice(['append', 'ctor', 'plain'])))
